@@ -66,11 +66,6 @@ TABLE: dict[str, list[tuple]] = {
     ],
     # ---- carving the body
     "remove_loop_edges": [
-        ("entries from outside the loop are cut", "call",
-         "remove_event_edges_and_event_sets", "",
-         ("{EventEdge(*each(P:graph.in_edges(P:loop.start_events))) for.. "
-          "if (each(P:graph.in_edges(P:loop.start_events))[0] NotIn "
-          "P:loop.loop_events)}", "P:graph"), [], [], ""),
         ("exits of the end events to outside the loop are cut", "call",
          "remove_event_edges_and_event_sets", "",
          ("{EventEdge(*each(P:graph.out_edges(P:loop.end_events))) for.. "
@@ -91,10 +86,6 @@ TABLE: dict[str, list[tuple]] = {
          "add_end_event_to_graph", "",
          ("P:end_event", "P:loop", "P:graph", "P:end_event_to_event_lists"),
          [], [], ""),
-        ("the dummy start belongs to the body", "call", "add",
-         "P:loop.loop_events", ("P:start_event",), [], [], ""),
-        ("the dummy end belongs to the body", "call", "add",
-         "P:loop.loop_events", ("P:end_event",), [], [], ""),
     ],
     "create_sub_graph_of_loop": [
         ("events of the copy that cannot get back into the loop are removed "
